@@ -83,6 +83,14 @@ class Report:
         self.obligations.append(o)
         return o
 
+    def summary(self, rule, key, detail='', nontrivial=True):
+        """a 'nothing of this kind anywhere' obligation: recorded (as discharged) only when the
+        rule produced no violation, so that one defect is reported once"""
+        full_rule = '%s.%s' % (self.pid, rule)
+        if any((not o.ok) and o.rule == full_rule for o in self.obligations):
+            return None
+        return self.ob(rule, key, True, None, detail, nontrivial=nontrivial)
+
     def count(self, name, n=1):
         self.analysed[name] = self.analysed.get(name, 0) + n
 
